@@ -39,6 +39,7 @@ def ceil_int(x):
 
 
 KIDX = z3.Function("kidx", I, I, I, I)
+TPLUS = z3.Function("tplus", I, R)   # t+(x) = 2 ** ceil(log2 x): the value computed by compute_t_plus (its contract ties the two)
 
 
 def use_kidx(u):
@@ -85,6 +86,8 @@ def use_lmaxb(u):
                           qid="lmaxb-step", patterns=[z3.MultiPattern(LMAXB(Bv, E, k), LMAXB(Bv, E, k2))]))
     u.bg.append(z3.ForAll([Bv, E, k, j], z3.Implies(z3.And(j >= 0, j < k), num.xr_le(Bv[E[j]], LMAXB(Bv, E, k))),
                           qid="lmaxb-ub", patterns=[z3.MultiPattern(LMAXB(Bv, E, k), Bv[E[j]])]))
+    u.bg.append(z3.ForAll([Bv, E, k], z3.Implies(k >= 1, num.xr_le(Bv[E[0]], LMAXB(Bv, E, k))),
+                          qid="lmaxb-first", patterns=[LMAXB(Bv, E, k)]))
     w = LMAXW(Bv, E, k, x, v)
     u.bg.append(z3.ForAll([Bv, E, k, x, v], z3.Implies(LMAXB(z3.Store(Bv, x, v), E, k) != LMAXB(Bv, E, k),
                                                       z3.And(w >= 0, w < k, E[w] == x)),
@@ -357,6 +360,14 @@ def spec_call(ev, n, e):
         return _real(ev, ev.ev(e.args[0]), e)
     if n == "xr":
         return ev.it.coerce(ev.ev(e.args[0]), FLOAT, ev.st, e, ev.frame, spec=True)
+    if n == "tplus":
+        x = _int(ev, ev.ev(e.args[0]), e).t
+        if "tplus" not in ev.u.used:
+            ev.u.used.add("tplus")
+            k = z3.Int("tp_x")
+            # positivity for arguments >= 1 is the proved postcondition of compute_t_plus (whose result tplus names)
+            ev.u.bg.append(z3.ForAll([k], z3.Implies(k >= 1, TPLUS(k) > 0), qid="tplus-pos", patterns=[TPLUS(k)]))
+        return Val(TPLUS(x), REAL)
     if n == "kidx":
         K, a, j = [_int(ev, ev.ev(x), e).t for x in e.args]
         use_kidx(ev.u)
@@ -388,11 +399,37 @@ def spec_call(ev, n, e):
         ev.u._key_ty.setdefault("g:" + n, INT)
         A = ev.u.get_arr(ev.st, "g:" + n, INT)
         return Val(A[v.t], ev.u.T(ev.reg.ghost_fields[n]))
+    if n in getattr(ev.reg, "opaques", {}):
+        return opaque_call(ev, n, e)
     if n in SPECFNS:
         return SPECFNS[n](ev, e)
     if n in ev.reg.preds:
         return pred_call(ev, n, e)
     return None
+
+
+_OPQ = {}
+
+
+def opaque_call(ev, n, e):
+    from .ty import parse_ty
+    ps, text, ret = ev.reg.opaques[n]
+    tys = [parse_ty(t) for _, t in ps]
+    rty = parse_ty(ret)
+    if n not in _OPQ:
+        _OPQ[n] = z3.Function("opq_" + n, *([sort_of(t) for t in tys] + [sort_of(rty)]))
+    f = _OPQ[n]
+    args = [ev.it.coerce(ev.ev(a), t, ev.st, e, ev.frame, spec=True) for a, t in zip(e.args, tys)]
+    u = ev.u
+    if n in u.contract.reveal and ("reveal:" + n) not in u.used:
+        u.used.add("reveal:" + n)
+        vs = [z3.Const("oq_%s_%s" % (n, nm), sort_of(t)) for (nm, _), t in zip(ps, tys)]
+        binds = {nm: Val(v, t) for (nm, _), v, t in zip(ps, vs, tys)}
+        st0 = State()
+        st0.next = u.next0
+        body = ev.it.coerce(ev.it.spec_val(text, st0, Frame(ev.frame.fdef, None, "opaque:" + n), binds=binds), rty, st0, e, ev.frame, spec=True)
+        u.bg.append(z3.ForAll(vs, f(*vs) == body.t, qid="reveal-" + n, patterns=[f(*vs)]))
+    return Val(f(*[a.t for a in args]), rty)
 
 
 def pred_call(ev, n, e):
